@@ -9,13 +9,14 @@ Import ListNotations.
 
 Theorem C17_call_sites : forall {X Z} (L Pi Q : X -> XR) (Tinv_pt : Z -> X) z znew (x : list X) (lq : list XR) beta n0,
   site_ok Pi (smc_log_prob_calls Pi Tinv_pt z beta n0) (smc_log_prob_count Tinv_pt z beta n0) n0
+  /\ site_ok Pi (blackjax_log_prob_calls Pi Tinv_pt z beta n0) (blackjax_log_prob_count Tinv_pt z beta n0) n0
   /\ site_ok Pi (mcmc_log_prob_calls Pi Tinv_pt z n0) (mcmc_log_prob_count Tinv_pt z n0) n0
   /\ site_ok Pi (minipcn_mutate_calls Pi Tinv_pt znew beta n0) (minipcn_mutate_count Tinv_pt znew beta n0) n0
   /\ site_ok Pi (emcee_mutate_calls Pi Tinv_pt znew beta n0) (emcee_mutate_count Tinv_pt znew beta n0) n0
   /\ site_ok Pi (importance_sample_calls Pi x lq n0) (importance_sample_count x lq n0) n0
   /\ prior_first Pi (convert_to_samples_calls Pi x lq) /\ prior_called_before [] (convert_to_samples_calls Pi x lq).
 Proof.
-  intros. split; [apply smc_log_prob_site|]. split; [apply mcmc_log_prob_site|]. split; [apply minipcn_mutate_site|].
+  intros. split; [apply smc_log_prob_site|]. split; [apply blackjax_log_prob_site|]. split; [apply mcmc_log_prob_site|]. split; [apply minipcn_mutate_site|].
   split; [apply emcee_mutate_site|]. split; [apply importance_sample_site|]. apply convert_to_samples_site.
 Qed.
 
